@@ -46,6 +46,10 @@ Definition absorb0 (lam : list Z) (As : list (list (list Z))) : list (list (list
 Definition lam_used (lcheck : bool) (lam : list Z) : bool := lcheck && existsb (fun w => negb (w =? 1)) lam.
 Definition lam_factors (lcheck : bool) (lam : list Z) (As : list (list (list Z))) :=
   if lam_used lcheck lam then absorb0 lam As else As.
+(* the exact partial derivatives for a model WITH component weights: column r of every matrix times weights[r]
+   (Proofs/C12Weighted.v eval_gradient_weighted); fg.evaluate returns zeval_G — finding C12-W1 *)
+Definition zeval_Gw (id : nat) (K : ktensor Z) (X : dense Z) (w : option (dense Z)) : list (list (list Z)) :=
+  map (fun G => map (fun row => zmul_row row (kweights K)) G) (zeval_G id K X w).
 Definition zest_lam_F (id : nat) (lcheck : bool) (lam : list Z) As := zest_F id (lam_factors lcheck lam As).
 Definition zest_lam_G (id : nat) (lcheck : bool) (lam : list Z) As := zest_G id (lam_factors lcheck lam As).
 
